@@ -23,8 +23,8 @@ RULE = ("scripted schedules (1-3 key-ups of 0..4 full frames, final partial fram
         "one key-up driven by real 5 s timeouts; consumer delay 0/1/200/1000 us per byte) compared byte for byte with the extracted model and the "
         "extracted specification stream; racy schedules (continuous feeder, PTT toggled at random sample counts 0..4 frames, 1-4 key-ups, consumer "
         "delay 0/1/1000 us, paced or unpaced feeder, stalled consumer) and schedules that change the callsigns with source()/dest() between "
-        "key-ups (every key-up must carry the LSF frame and LICH fragments of the pair configured then) checked by the self-consistency "
-        "oracle.  A case is one schedule; non-trivial if it emitted at "
+        "key-ups (every key-up must carry the LSF frame and LICH fragments of the pair configured then; compared byte for byte with the "
+        "extracted run_segments, theorem c14_reconfigured_sessions) checked by the self-consistency oracle.  A case is one schedule; non-trivial if it emitted at "
         "least one stream frame; distinct by the emitted bytes.")
 ASSUMPTIONS = ["model = hand-written ImplModulator.v; tie = differential run on this run's schedules + constants regenerated from the source",
                "Codec2 is an oracle in the proofs; in the tie its results come from libcodec2 run by the harness on the same audio",
@@ -164,6 +164,7 @@ def gen_setters(ctx):
         src, dst = rand_call(r), rand_call(r, True)
         d = Det(src, dst, 0)
         d.calls = []
+        d.seg_start = []
         nk = r.range(2, 4)
         mode = k % 4                      # 0: dest only, 1: source only, 2: both, 3: random
         for j in range(nk):
@@ -176,6 +177,7 @@ def gen_setters(ctx):
                     dst = rand_call(r, True)
                     d.ops.append(f"dst:{dst or '-'}")
             d.calls.append((src, dst))
+            d.seg_start.append(len(d.events))
             d.keyup(r, r.choice([1, 2, 6, 7]), 0, r.choice([0, 1, -1]))
         ctx.count(f"setters-{['dest', 'source', 'both', 'random'][mode]}")
         out.append(d)
@@ -486,6 +488,32 @@ def run(ctx):
     for d in dets:
         assert next(it) == "ok"
         tables.append([next(it)[3:] for _ in d.frames])
+    # the schedules with source()/dest() between key-ups against the extracted run_segments
+    c2s = []
+    for d in setters:
+        c2s.append("c2reset")
+        c2s += ["c2 " + ",".join(map(str, f)) for f in d.frames]
+    rc, c2o = ctx.run_exe(exe, input_text="\n".join(c2s) + "\n", timeout=600)
+    c2l = [l for l in c2o.split("\n") if l.startswith("c2=") or l == "ok"]
+    if rc != 0 or len(c2l) != len(c2s):
+        ctx.tie_broken("c14-codec2-reference", f"setter schedules: rc={rc} {len(c2l)}/{len(c2s)} lines")
+    else:
+        it2 = iter(c2l)
+        slines = []
+        for d in setters:
+            assert next(it2) == "ok"
+            tab = "".join(next(it2)[3:] for _ in d.frames)
+            bounds = d.seg_start + [len(d.events)]
+            segs = [f"{hx(ds)}/{hx(sr)}/{','.join(d.events[bounds[i]:bounds[i + 1]]) or '-'}" for i, (sr, ds) in enumerate(d.calls)]
+            slines.append(f"runsegs 167 {tab or '-'} " + " ".join(segs))
+        rc, so = ctx.run_exe(model, ["impl"], input_text="\n".join(slines) + "\n", timeout=900)
+        sres = [parse_result(l) for l in so.strip("\n").split("\n")]
+        ic, mc = [], []
+        for d, l, m in zip(setters, set_res, sres):
+            res = parse_result(l)
+            ic.append(f"state={res.get('state')} bytes={res.get('bytes')}")
+            mc.append(f"state={m.get('mode')} bytes={m.get('bytes')}")
+        ctx.diff_lines("modulator-reconfigured-impl-vs-model", [d.line()[:300] for d in setters], "\n".join(ic), "\n".join(mc))
 
     # (a) correspondence: real bytes vs extracted model on the known event order; and vs the specification stream
     junk = 0xA7
